@@ -88,7 +88,8 @@ def newton_probe(pb):
     from exactpack.solvers.nohblackboxeos.blackboxnoh import NohBlackBoxEos
     eos = make_eos(pb["eos"])
     rho0, u0, sym = E.qf(pb["rho0"]), E.qf(pb["u0"]), pb["symmetry"]
-    ic = {"density": rho0, "velocity": u0, "pressure": 0, "symmetry": sym}
+    p0 = E.qf(pb.get("p0", [0, 1]))
+    ic = {"density": rho0, "velocity": u0, "pressure": p0, "symmetry": sym}
     alu = pb["eos"]["cls"] == "aluminum_eos"
     if alu:
         rho0 = float(eos.reference_density); u0 = u0 * 2.0e5
@@ -123,13 +124,14 @@ def newton_probe(pb):
     if not sd.get("converged", True) if isinstance(sd, dict) else False:
         return None, None
     rho2, e2, D = float(s.shocked_density), float(s.shocked_energy), float(s.shock_speed)
-    P2 = float(eos.P(rho2, e2))
+    P2 = float(s.shocked_pressure)                  # the pressure the solver returns behind the shock
     # pre-shock state just ahead of the shock (geometric convergence of the cold inflow): rho1 = rho0 (1 - u0/D)^sym
     rho1 = rho0 * (1.0 - u0 / D) ** sym
     m = rho1 * (u0 - D)
     eq = {"newton.mass": E.e8([rho2 * (0.0 - D), -m]),
-          "newton.momentum": E.e8([rho2 * D * D + P2, -(rho1 * (u0 - D) ** 2)]),
-          "newton.energy": E.e8([rho2 * (-D) * (e2 + D * D / 2) + P2 * (-D), -(m * (eos.e(rho1, 0.0) + (u0 - D) ** 2 / 2))])}
+          "newton.momentum": E.e8([rho2 * D * D, P2, -(rho1 * (u0 - D) ** 2), -p0]),
+          "newton.energy": E.e8([rho2 * (-D) * (e2 + D * D / 2), P2 * (-D), -(m * (eos.e(rho1, p0) + (u0 - D) ** 2 / 2)), -p0 * (u0 - D)]),
+          "newton.pressure=P(rho,e)": E.e8([P2, -float(eos.P(rho2, e2))])}
     return eq, D
 
 
